@@ -70,7 +70,10 @@ AlphaSet ==
       [] Alpha = "q7" ->  \* the attribute dimension: every generated class / id combination on a box
            {E("div", a) : a \in PlainAttrs \cup VocabAttrs \cup NearAttrs} \cup {E("p", "")}
       [] Alpha = "t2" ->  \* thorough: the whole attribute vocabulary on one box kind
-           {E("div", a) : a \in PlainAttrs \cup VocabAttrs \cup NearAttrs \cup RoleHints}
+           \* (the whole attribute table is enumerated by q7 / t7; here every role and a sample of it)
+           {E("div", a) : a \in RoleHints \cup {"", "class:content", "role:main", "class:nav", "id:menu", "class:top menu",
+                                                 "class:sidebar|id:secondary", "class:navy", "class:widgets",
+                                                 "class:side|id:bar-chart"}}
            \cup {E("p", ""), E("footer", ""), E("aside", ""), LinkDiv(""), LinkList5("")}
       [] Alpha = "full" -> FullAlphabet
 
